@@ -670,8 +670,95 @@ def gen_factory(repo):
     return "\n".join(out) + "\n"
 
 
+def gen_decorators(repo):
+    """PoolDecorator's five accessors (interfaces/_proxy.py) and Logger.demand getter / setter (decorator/logger.py) as the
+    tables of kit/DecoIR.v; every accessor must be the single expected statement (docstrings aside)"""
+    PATTR = {"demand": "PDemand", "supply": "PSupply", "utilisation": "PUtil", "allocation": "PAlloc"}
+
+    def src(e):
+        return ast.unparse(e).replace(" ", "")
+
+    def fail(what, node=None):
+        raise TranslationError("decorators: %s%s" % (what, " (line %d)" % node.lineno if node is not None and hasattr(node, "lineno") else ""))
+
+    def body_of(fn):
+        b = list(fn.body)
+        if b and isinstance(b[0], ast.Expr) and isinstance(b[0].value, ast.Constant) and isinstance(b[0].value.value, str):
+            b = b[1:]
+        return b
+
+    def target_attr(e):
+        """self.target.<a> -> pattr"""
+        if (isinstance(e, ast.Attribute) and e.attr in PATTR and isinstance(e.value, ast.Attribute) and e.value.attr == "target"
+                and isinstance(e.value.value, ast.Name) and e.value.value.id == "self"):
+            return PATTR[e.attr]
+        fail("expected self.target.<attribute>, got %s" % src(e), e)
+
+    def getter(tree, cls, name):
+        fn = find_function(tree, name, cls=cls, decorator="property")
+        b = body_of(fn)
+        if len(b) != 1 or not isinstance(b[0], ast.Return) or [a.arg for a in fn.args.args] != ["self"]:
+            fail("%s.%s: a single return" % (cls, name), fn)
+        return target_attr(b[0].value)
+
+    with open(os.path.join(repo, "src", "cobald", "interfaces", "_proxy.py")) as fh:
+        tree = ast.parse(fh.read())
+    reads = [getter(tree, "PoolDecorator", n) for n in ("supply", "demand", "utilisation", "allocation")]
+    fn = find_function(tree, "demand", cls="PoolDecorator", decorator="demand.setter")
+    b = body_of(fn)
+    if (len(b) != 1 or not isinstance(b[0], ast.Assign) or len(b[0].targets) != 1 or len(fn.args.args) != 2
+            or src(b[0].value) != fn.args.args[1].arg):
+        fail("PoolDecorator.demand setter: self.target.<attribute> = value", fn)
+    setter = target_attr(b[0].targets[0])
+    fn = find_function(tree, "__init__", cls="PoolDecorator")
+    b = body_of(fn)
+    if [a.arg for a in fn.args.args] != ["self", "target"] or [src(x) for x in b] != ["self.target=target"]:
+        fail("PoolDecorator.__init__(self, target): self.target = target", fn)
+    out = ["(* GENERATED on every run by py2coq from src/cobald/interfaces/_proxy.py and src/cobald/decorator/logger.py -- do not edit *)",
+           "From Coq Require Import List String.",
+           "From Cobald Require Import model.Decorators kit.DecoIR.",
+           "Import ListNotations.", "",
+           "Definition gen_proxy : proxy_tbl := mkProxy %s %s." % (" ".join(reads), setter), ""]
+    # ---- Logger
+    with open(os.path.join(repo, "src", "cobald", "decorator", "logger.py")) as fh:
+        tree = ast.parse(fh.read())
+    out.append("Definition gen_logger_getter : lsrc := LTarget %s." % getter(tree, "Logger", "demand"))
+    fn = find_function(tree, "demand", cls="Logger", decorator="demand.setter")
+    if len(fn.args.args) != 2 or fn.args.args[0].arg != "self":
+        fail("Logger.demand setter(self, value)", fn)
+    val = fn.args.args[1].arg
+    steps, table = [], None
+    for x in body_of(fn):
+        if (isinstance(x, ast.Assign) and len(x.targets) == 1 and src(x.value) == val and target_attr(x.targets[0]) == "PDemand"):
+            steps.append("LWrite")
+            continue
+        c = x.value if isinstance(x, ast.Expr) else None
+        if (isinstance(c, ast.Call) and src(c.func) == "self._logger.log" and not c.keywords and len(c.args) == 3
+                and src(c.args[0]) == "self.level" and src(c.args[1]) == "self.message" and isinstance(c.args[2], ast.Dict)
+                and table is None):
+            table = []
+            for k, v in zip(c.args[2].keys, c.args[2].values):
+                if not (isinstance(k, ast.Constant) and isinstance(k.value, str) and k.value.isidentifier()):
+                    fail("Logger: field keys must be plain strings", x)
+                if src(v) == val:
+                    sv = "LValue"
+                elif src(v) == "self.target":
+                    sv = "LTargetObj"
+                else:
+                    sv = "(LTarget %s)" % target_attr(v)
+                table.append('("%s", %s)' % (k.value, sv))
+            steps.append("LLog")
+            continue
+        fail("Logger.demand setter: unexpected statement %s" % src(x), x)
+    if table is None:
+        fail("Logger.demand setter: no self._logger.log(self.level, self.message, {...})", fn)
+    out.append("Definition gen_logger_fields : ltable := [%s]%%string." % "; ".join(table))
+    out.append("Definition gen_logger_steps : list lstep := [%s]." % "; ".join(steps))
+    return "\n".join(out) + "\n"
+
+
 UNITS = {"Gen_registry.v": gen_registry, "Gen_standardiser.v": gen_standardiser, "Gen_controllers.v": gen_controllers, "Gen_guard.v": gen_guard,
-         "Gen_composite.v": gen_composite, "Gen_factory.v": gen_factory}
+         "Gen_composite.v": gen_composite, "Gen_factory.v": gen_factory, "Gen_decorators.v": gen_decorators}
 
 
 def regen(repo, gendir, names=None):
